@@ -196,38 +196,3 @@ where
 {
     (a(), b())
 }
-
-fn less_full(a: &u8, b: &u8) -> bool {
-    *a < *b
-}
-
-/// partial_insertion_sort only shifts elements in slices of at least 50 elements: an almost-sorted
-/// slice of 50 whose first FREE elements are symbolic and whose tail is 4, 5, .., 49.
-/// true => sorted; always a permutation.
-pub fn k18_partial_insertion_sort_50<const FREE: usize>() {
-    let mut old = [0u8; 50];
-    let mut i = 0;
-    while i < 50 {
-        old[i] = i as u8;
-        i += 1;
-    }
-    let head: [u8; FREE] = kani::any();
-    let mut k = 0;
-    while k < FREE {
-        kani::assume(head[k] < 60);
-        old[k] = head[k];
-        k += 1;
-    }
-    let mut v = old;
-    let done = partial_insertion_sort(&mut v, &less_full);
-    if done {
-        let mut j = 1;
-        while j < 50 {
-            assert!(v[j - 1] <= v[j], "partial_insertion_sort reports success only for a sorted slice");
-            j += 1;
-        }
-    }
-    let x: u8 = kani::any();
-    assert!(count(&old, x) == count(&v, x), "partial_insertion_sort permutes its input");
-    kani::cover!(done && head[0] > head[1]);
-}
